@@ -1298,6 +1298,7 @@ func Run(c *hx.Ctx) {
 	durs(c, c.N(1500, 20000))
 	gens(c, tmp, c.N(300, 5000))
 	pairs2(c, c.N(2500, 25000))
+	cbEffs(c, c.N(1500, 15000))
 	dynPairs(c, tmp, c.N(400, 6000))
 	dyns(c, tmp, c.N(240, 3000))
 	dynUpds(c, c.N(150, 1500))
